@@ -257,9 +257,12 @@ def conic_conic_stream(ctx, n):
                 ("tangent-circles", lambda: (g.Circle(g.Point(0.0, 0.0), 2.0), g.Circle(g.Point(3.0, 0.0), 1.0))),
                 ("crossing-circles", lambda: (g.Circle(g.Point(0.0, 0.0), 5.0), g.Circle(g.Point(6.0, 0.0), 5.0))),
                 ("linepair-second", lambda: (g.Circle(g.Point(0.0, 0.0), 5.0), g.Conic.from_lines(g.Line(1.0, 0.0, -3.0), g.Line(0.0, 1.0, -4.0)))),
-                ("linepair-first", lambda: (g.Conic.from_lines(g.Line(1.0, 0.0, -3.0), g.Line(0.0, 1.0, -4.0)), g.Circle(g.Point(0.0, 0.0), 5.0)))]
+                ("linepair-first", lambda: (g.Conic.from_lines(g.Line(1.0, 0.0, -3.0), g.Line(0.0, 1.0, -4.0)), g.Circle(g.Point(0.0, 0.0), 5.0))),
+                ("linepair-linepair", lambda: (g.Conic.from_lines(g.Line(1.0, 0.0, -3.0), g.Line(0.0, 1.0, -4.0)), g.Conic.from_lines(g.Line(1.0, 1.0, 0.0), g.Line(1.0, -1.0, -1.0))))]
     expected = {"circle-ellipse": None, "tangent-circles": [[2.0, 0.0, 1.0]], "crossing-circles": [[3.0, 4.0, 1.0], [3.0, -4.0, 1.0]],
-                "linepair-second": [[3.0, 4.0, 1.0], [3.0, -4.0, 1.0], [-3.0, 4.0, 1.0]], "linepair-first": [[3.0, 4.0, 1.0], [3.0, -4.0, 1.0], [-3.0, 4.0, 1.0]]}
+                "linepair-second": [[3.0, 4.0, 1.0], [3.0, -4.0, 1.0], [-3.0, 4.0, 1.0]], "linepair-first": [[3.0, 4.0, 1.0], [3.0, -4.0, 1.0], [-3.0, 4.0, 1.0]],
+                # x = 3 or y = 4, against x + y = 0 or x - y = 1: the four pairwise meets
+                "linepair-linepair": [[3.0, -3.0, 1.0], [3.0, 2.0, 1.0], [-4.0, 4.0, 1.0], [5.0, 4.0, 1.0]]}
     for name, mk in specials:
         desc = f"conic-conic special {name}"
         ctx.case(desc)
